@@ -9,6 +9,7 @@ import (
 	"github.com/PowerDNS/lightningstream/syncer/events"
 	"github.com/PowerDNS/lightningstream/syncer/hooks"
 	"github.com/PowerDNS/lightningstream/utils/climit"
+	"github.com/PowerDNS/lightningstream/utils/verifhook"
 	"github.com/PowerDNS/simpleblob"
 	"github.com/sirupsen/logrus"
 
@@ -105,6 +106,9 @@ func (r *Receiver) Next() (instance string, update snapshot.Update) {
 	for instance, update = range r.snapshotsByInstance {
 		break // first is assigned to return values now
 	}
+	if verifhook.Enabled && len(r.snapshotsByInstance) > 1 {
+		instance, update = verifPickSnapshot(r.snapshotsByInstance)
+	}
 	if instance != "" {
 		// Consider handled
 		delete(r.snapshotsByInstance, instance)
@@ -164,6 +168,7 @@ func (r *Receiver) MarkCorrupt(filename string, err error) {
 }
 
 func (r *Receiver) Run(ctx context.Context) error {
+	verifhook.Start(ctx, "receiver", "")
 	for {
 		if err := r.RunOnce(ctx, false); err != nil {
 			r.l.WithError(err).Error("Fetch error")
